@@ -170,12 +170,26 @@ func monitorCallbacks(w *world.World) (rule, msg string) {
 			p.state = 0
 		}
 	}
-	// GetCapabilities / OnOpenMessage per connection, by writer goroutine
+	// GetCapabilities / OnOpenMessage per connection. The callbacks carry no connection, so they are tied
+	// to a connection through the goroutine that writes its OPEN (on this tree the connection's FSM
+	// goroutine makes the callbacks and writes the OPEN). Where the goroutine that wrote an OPEN made no
+	// such callback at all (a tree that writes from another goroutine than it calls the plugin from), the
+	// rule falls back to counting per peer in log order: the k-th OPEN to a peer is preceded by at least k
+	// GetCapabilities calls for it, and an OnOpenMessage by an OPEN to that peer.
 	type opn struct {
 		seq  int
 		conn int
+		peer string
+		g    string
 	}
-	opens := map[string][]opn{} // goroutine -> OPEN writes in order
+	opens := map[string][]opn{}     // goroutine -> OPEN writes in order
+	peerOpens := map[string][]opn{} // peer -> OPEN writes in order
+	cbBy := map[string]bool{}       // goroutines that made a GetCapabilities / OnOpenMessage callback
+	for _, ev := range w.Log {
+		if (ev.Kind == "GetCapabilities" || ev.Kind == "OnOpenMessage") && ev.Phase == "enter" {
+			cbBy[ev.G] = true
+		}
+	}
 	for _, c := range w.NW.Conns {
 		if !c.Lib || len(c.Chunks) == 0 {
 			continue
@@ -194,10 +208,12 @@ func monitorCallbacks(w *world.World) (rule, msg string) {
 			return "two-opens-on-connection", fmt.Sprintf("%d OPEN messages written on %s", nOpen, c)
 		}
 		ch := c.Chunks[0]
-		opens[ch.G] = append(opens[ch.G], opn{ch.Seq, c.ID})
+		host, _, _ := net.SplitHostPort(c.RemoteAddr().String())
+		o := opn{ch.Seq, c.ID, peerNameOf(host), ch.G}
+		opens[ch.G] = append(opens[ch.G], o)
+		peerOpens[o.peer] = append(peerOpens[o.peer], o)
 	}
-	for g, os := range opens {
-		// order by log position (same goroutine: program order)
+	bySeq := func(os []opn) {
 		for i := 0; i < len(os); i++ {
 			for j := i + 1; j < len(os); j++ {
 				if os[j].seq < os[i].seq {
@@ -205,6 +221,13 @@ func monitorCallbacks(w *world.World) (rule, msg string) {
 				}
 			}
 		}
+	}
+	for g, os := range opens {
+		if !cbBy[g] {
+			continue
+		}
+		// order by log position (same goroutine: program order)
+		bySeq(os)
 		prev := -1
 		for i, o := range os {
 			nGet, nOpenCb := 0, 0
@@ -236,12 +259,36 @@ func monitorCallbacks(w *world.World) (rule, msg string) {
 			prev = o.seq
 		}
 	}
+	for peer, os := range peerOpens {
+		bySeq(os)
+		for k, o := range os {
+			if cbBy[o.g] {
+				continue
+			}
+			nGet := 0
+			for _, ev := range w.Log {
+				if ev.Kind == "GetCapabilities" && ev.Phase == "enter" && ev.Peer == peer && ev.Seq < o.seq {
+					nGet++
+				}
+			}
+			if nGet < k+1 {
+				return "getcapabilities-missing", fmt.Sprintf("OPEN number %d to %s (conn%d) is preceded by %d GetCapabilities calls", k+1, peer, o.conn, nGet)
+			}
+		}
+	}
 	for _, ev := range w.Log {
 		if ev.Kind == "OnOpenMessage" && ev.Phase == "enter" {
 			ok := false
 			for _, o := range opens[ev.G] {
 				if o.seq <= ev.Seq {
 					ok = true
+				}
+			}
+			if len(opens[ev.G]) == 0 {
+				for _, o := range peerOpens[ev.Peer] {
+					if o.seq <= ev.Seq {
+						ok = true
+					}
 				}
 			}
 			if !ok {
